@@ -1,5 +1,5 @@
 (* Lemmas about Model/DnsRoute.v (property C15). *)
-From Erbium Require Import Lib.Base Model.DnsRoute.
+From Erbium Require Import Lib.Base Lib.ListEqbFacts Model.DnsRoute.
 From Coq Require Import Permutation Arith.
 
 (* ---- specification vocabulary (from the property text) ------------------ *)
@@ -16,36 +16,6 @@ Definition table_functional (rt : table) : Prop :=
 Definition Permutation_tables (rt rt' : table) : Prop :=
   exists rt'', Permutation rt rt'' /\
     Forall2 (fun r r' => act r = act r' /\ Permutation (suffixes r) (suffixes r')) rt'' rt'.
-
-(* ---- list_eqb ------------------------------------------------------------- *)
-Lemma list_eqb_Forall2 : forall {A} (eqb : A -> A -> bool) (R : A -> A -> Prop),
-  (forall x y, eqb x y = true <-> R x y) ->
-  forall a b, list_eqb eqb a b = true <-> Forall2 R a b.
-Proof.
-  intros A eqb R H a. induction a as [|x a IH]; intros [|y b]; simpl.
-  - split; intro; [constructor | reflexivity].
-  - split; intro E; [discriminate | inversion E].
-  - split; intro E; [discriminate | inversion E].
-  - rewrite andb_true_iff, H, IH. split.
-    + intros [? ?]. constructor; assumption.
-    + intro E. inversion E; subst. auto.
-Qed.
-
-Lemma Forall2_eq : forall {A} (a b : list A), Forall2 eq a b <-> a = b.
-Proof.
-  intros A a. induction a as [|x a IH]; intros [|y b].
-  - split; intro; [reflexivity | constructor].
-  - split; intro E; [inversion E | discriminate].
-  - split; intro E; [inversion E | discriminate].
-  - split; intro E.
-    + inversion E; subst. f_equal. apply IH. assumption.
-    + inversion E; subst. constructor; [reflexivity | apply IH; reflexivity].
-Qed.
-
-Lemma bytes_eqb_eq : forall a b : list N, list_eqb N.eqb a b = true <-> a = b.
-Proof.
-  intros. rewrite (list_eqb_Forall2 N.eqb eq); [apply Forall2_eq | intros; apply N.eqb_eq].
-Qed.
 
 Lemma label_eqb_ci_spec : forall a b, label_eqb_ci a b = true <-> label_eq_ci a b.
 Proof. intros. unfold label_eqb_ci, label_eq_ci. apply bytes_eqb_eq. Qed.
